@@ -200,6 +200,42 @@ theorem fromArray_of_chain (l : List Node) (h : chainOk l = true) : fromArray l 
 theorem fromArray_idem (l : List Node) : fromArray (fromArray l) = fromArray l :=
   fromArray_of_chain _ (fromArray_chain l)
 
+/-- number of joins `from_array` performs: adjacent pairs of same-markup text nodes in the chain `prev :: cs`
+    (`seamOk` is false exactly on such a pair) -/
+def joinFrom : Option Node → List Node → Nat
+  | _, [] => 0
+  | prev, c :: cs => (if seamOk prev (some c) then 0 else 1) + joinFrom (some c) cs
+
+theorem addNodes_length : ∀ (cs t : List Node) (u : Option Node), (∀ v, seamOk t.getLast? v = seamOk u v) →
+    (addNodes t cs).length + joinFrom u cs = t.length + cs.length
+  | [], t, u, _ => by simp [addNodes, joinFrom]
+  | c :: cs, t, u, hu => by
+    simp only [addNodes, List.foldl_cons, joinFrom, List.length_cons]
+    by_cases hj : ∃ s m, c = .text s m ∧ lastKey t = some m
+    · have hs : seamOk u (some c) = false := by rw [← hu]; exact join_of_seam_false t c hj
+      obtain ⟨s, m, rfl, hk⟩ := hj
+      obtain ⟨ls, hl, ha⟩ := addNode_join t s m hk
+      have hne : t ≠ [] := by intro h0; subst h0; simp at hl
+      have hlen : 0 < t.length := List.length_pos_iff.2 hne
+      have ih := addNodes_length cs (addNode t (.text s m)) (some (.text s m)) (by
+        intro v; rw [ha]; simp only [List.getLast?_append, List.getLast?_singleton, Option.some_or]
+        exact seamOk_sameKind_left (sameKind_text s (ls ++ s) m) v)
+      simp only [addNodes] at ih
+      rw [hs]
+      have e : (addNode t (.text s m)).length = t.length := by rw [ha]; simp; omega
+      simp only [Bool.false_eq_true, if_false]; omega
+    · have hs : seamOk u (some c) = true := by rw [← hu]; exact seamOk_nojoin t c hj
+      have ha := addNode_nojoin t c hj
+      have ih := addNodes_length cs (addNode t c) (some c) (by intro v; rw [ha]; simp)
+      simp only [addNodes] at ih
+      have e : (addNode t c).length = t.length + 1 := by rw [ha]; simp
+      rw [hs]; simp only [if_true]; omega
+
+/-- **child count of `from_array l` = number of inputs − number of adjacent same-markup text pairs** -/
+theorem fromArray_length (l : List Node) : (fromArray l).length + joinFrom none l = l.length := by
+  have := addNodes_length l [] none (by intro v; simp)
+  simpa [fromArray] using this
+
 /-! ### sizes -/
 
 theorem ftoks_nil_of_fsize (l : List Node) (h : fsize l = 0) : ftoks l = [] := by
@@ -580,6 +616,61 @@ theorem Frag.findIndex_total (f : Frag) (hf : f.WF) (pos : Nat) (round : Int) (h
       obtain ⟨i', o, _, e2⟩ := Frag.findIndexLoop_eq f.content pos 0 0 round hr (by omega) (by omega)
       simp only [Int.natCast_zero, Int.zero_add] at e2
       exact ⟨_, _, by rw [if_neg h0, if_neg h1, if_neg h2, e2]⟩
+
+/-- the loop of `find_index`, both roundings, without reference to the list-level model: it stops at the first child
+    `k` whose end reaches the position -/
+theorem Frag.findIndexLoop_spec : ∀ (l : List Node) (p i cur : Nat) (round : Int), 0 < p → p ≤ fsize l →
+    ∃ k n, l[k]? = some n ∧ fsize (l.take k) < p ∧ p ≤ fsize (l.take k) + n.size ∧
+      Frag.findIndexLoop l ((cur : Int) + p) round i cur =
+        .ok (if p = fsize (l.take k) + n.size ∨ round > 0
+          then (i + k + 1, (cur : Int) + (fsize (l.take k) + n.size : Nat))
+          else (i + k, (cur : Int) + (fsize (l.take k) : Nat)))
+  | [], p, i, cur, round, hp, hle => by simp at hle; omega
+  | n :: ns, p, i, cur, round, hp, hle => by
+    unfold Frag.findIndexLoop
+    by_cases h1 : p ≤ n.size
+    · refine ⟨0, n, by simp, by simpa using hp, by simpa using h1, ?_⟩
+      have c1 : (cur : Int) + n.size ≥ cur + p := by omega
+      simp only [c1, if_true, List.take_zero, fsize_nil, Nat.zero_add, Nat.add_zero, Int.natCast_zero, Int.add_zero]
+      have e : ((cur : Int) + n.size = cur + p) ↔ (p = n.size) := by omega
+      simp only [e]
+      by_cases h2 : p = n.size ∨ round > 0
+      · rw [if_pos h2, if_pos h2]
+      · rw [if_neg h2, if_neg h2]
+    · simp only [fsize_cons] at hle
+      obtain ⟨k, m, e1, e2, e3, e4⟩ :=
+        Frag.findIndexLoop_spec ns (p - n.size) (i + 1) (cur + n.size) round (by omega) (by omega)
+      refine ⟨k + 1, m, by simpa using e1, by simp only [List.take_succ_cons, fsize_cons]; omega,
+        by simp only [List.take_succ_cons, fsize_cons]; omega, ?_⟩
+      have c1 : ¬ ((cur : Int) + n.size ≥ cur + p) := by omega
+      simp only [c1, if_false]
+      have : ((cur + n.size : Nat) : Int) + ((p - n.size : Nat) : Int) = (cur : Int) + p := by omega
+      rw [this, Int.natCast_add] at e4
+      rw [e4]
+      simp only [List.take_succ_cons, fsize_cons]
+      have e : (p - n.size = fsize (ns.take k) + m.size) ↔ (p = n.size + fsize (ns.take k) + m.size) := by omega
+      simp only [e]
+      by_cases h2 : p = n.size + fsize (ns.take k) + m.size ∨ round > 0
+      · rw [if_pos h2, if_pos h2]; congr 2 <;> omega
+      · rw [if_neg h2, if_neg h2]; congr 2 <;> omega
+
+/-- **`find_index(pos, round)` strictly inside** a fragment whose cache is right: with `k` the first child whose end
+    reaches `pos` — index `k + 1` and the child's end if `pos` is that end or rounding up, otherwise index `k` and the
+    child's start -/
+theorem Frag.findIndex_spec (f : Frag) (hf : f.WF) (pos : Nat) (round : Int) (h0 : 0 < pos)
+    (h1 : pos < fsize f.content) :
+    ∃ k n, f.content[k]? = some n ∧ fsize (f.content.take k) < pos ∧ pos ≤ fsize (f.content.take k) + n.size ∧
+      f.findIndex pos round =
+        .ok (if pos = fsize (f.content.take k) + n.size ∨ round > 0
+          then (k + 1, ((fsize (f.content.take k) + n.size : Nat) : Int))
+          else (k, ((fsize (f.content.take k) : Nat) : Int))) := by
+  unfold Frag.WF at hf
+  obtain ⟨k, n, e1, e2, e3, e4⟩ := Frag.findIndexLoop_spec f.content pos 0 0 round h0 (by omega)
+  refine ⟨k, n, e1, e2, e3, ?_⟩
+  unfold Frag.findIndex
+  rw [if_neg (by omega), if_neg (by omega), if_neg (by omega)]
+  simp only [Int.natCast_zero, Int.zero_add, Nat.zero_add] at e4
+  exact e4
 
 /-! ### child / maybe_child -/
 
